@@ -18,6 +18,12 @@ type replayer struct {
 
 var replayers = map[string]replayer{
 	"C01": {func() []*world.Config { return C01Configs(true) }, func(c *world.Config) explore.Monitor { return &c01Mon{cfg: c} }},
+	"C04": {func() []*world.Config { return StructConfigs(true, []string{"none", "big"}, bothFormats) }, func(c *world.Config) explore.Monitor { return &c04Mon{} }},
+	"C09": {func() []*world.Config { return StructConfigs(true, []string{"none", "big"}, bothFormats) }, func(c *world.Config) explore.Monitor { return &c09Mon{} }},
+	"C08": {func() []*world.Config { return StructConfigs(true, []string{"none", "big"}, bothFormats) }, func(c *world.Config) explore.Monitor { return newC08() }},
+	"C05": {func() []*world.Config {
+		return append(StructConfigs(true, []string{"none", "big"}, bothFormats), C05ExtraConfigs(true)...)
+	}, func(c *world.Config) explore.Monitor { return &c05Mon{} }},
 }
 
 // Replay re-executes the history stored in a replay file step by step with the
